@@ -16,6 +16,8 @@
 #include <gemmi/to_cif.hpp>
 #undef private
 #include <gemmi/cif.hpp>
+#include <gemmi/json.hpp>
+#include <gemmi/to_json.hpp>
 
 using namespace gemmi;
 using hv::words; using hv::to_ll; using hv::hex_encode; using hv::hex_decode;
@@ -292,6 +294,55 @@ static std::string handle(const std::string& cmd, const std::string& args) {
       return "skip";
     }
     return roundtrip(d, o, level);
+  }
+  if (cmd == "o_json" || cmd == "o_mmjson") {
+    // dump of a document read from mmJSON: raw value, or its string content when it is delimited
+    auto val = [](const std::string& v) {
+      bool delimited = !v.empty() && (v[0] == '\'' || v[0] == '"' || v[0] == ';');
+      return hex_encode(delimited ? cif::as_string(v) : v);
+    };
+    auto dump = [&](const cif::Document& d) {
+      std::string r;
+      for (const cif::Block& b : d.blocks) {
+        r += "B " + hex_encode(b.name);
+        for (const cif::Item& it : b.items) {
+          if (it.type == cif::ItemType::Pair)
+            r += " P " + hex_encode(it.pair[0]) + " " + val(it.pair[1]);
+          else if (it.type == cif::ItemType::Loop) {
+            r += " L " + std::to_string(it.loop.tags.size()) + " " + std::to_string(it.loop.values.size());
+            for (const std::string& t : it.loop.tags) r += " " + hex_encode(t);
+            for (const std::string& v : it.loop.values) r += " " + val(v);
+          }
+        }
+        r += " ";
+      }
+      return r;
+    };
+    if (cmd == "o_json") {     // hexjson | expected dump: the reader assigns to every item the content it was given
+      size_t bar = args.find('|');
+      std::string json = hex_decode(words(args.substr(0, bar)).at(0));
+      std::string want = args.substr(bar + 1);
+      cif::Document d = cif::read_mmjson_insitu(&json[0], json.size(), "json");
+      std::vector<std::string> a = words(dump(d)), b = words(want);
+      if (a != b) {
+        std::string got; for (const std::string& x : a) got += x + " ";
+        return "mmJSON reader: document differs from the JSON content: got " + got;
+      }
+      return "ok";
+    }
+    // o_mmjson DOM: write_mmjson -> read_mmjson_insitu, string content of every value is kept
+    cif::Document d = read_dom(w, 0);
+    std::ostringstream os;
+    cif::write_mmjson_to_stream(os, d);
+    std::string json = os.str();
+    std::string keep = json;
+    cif::Document back = cif::read_mmjson_insitu(&json[0], json.size(), "json");
+    std::vector<std::string> a = words(dump(back)), b = words(dump(d));
+    if (a != b) {
+      std::string got; for (const std::string& x : a) got += x + " ";
+      return "mmJSON round trip: got " + got + " json=" + hex_encode(keep.substr(0, 400));
+    }
+    return "ok";
   }
   throw std::runtime_error("unknown command");
 }
